@@ -245,11 +245,20 @@ class Tojson(VC):
 # do_xmlattr
 # =====================================================================================
 I_ = z3.IntSort()
-Str = z3.StringSort()
-f_esc = z3.Function("markupsafe_escape", Obj, Str)           # str(escape(x))
+# String-free encoding (z3's sequence solver does not honour its timeout on satisfiable queries that mix strings,
+# arrays and quantifiers): every text is an opaque atom, texts are built by uninterpreted constructors.
+f_esc = z3.Function("markupsafe_escape", Obj, Obj)              # escape(x)
+f_str = z3.Function("py_str", Obj, Obj)                         # str(x)
+f_cat = z3.Function("str_concat", Obj, Obj, Obj)                # a + b
 f_bad_key = z3.Function("attr_key_re_search", Obj, z3.BoolSort())   # _attr_key_re.search(key) is not None
-f_join_sp = z3.Function("str_join_space", z3.ArraySort(I_, Str), I_, Str)  # " ".join(list)
+f_join_sp = z3.Function("str_join_space", z3.ArraySort(I_, Obj), I_, Obj)  # " ".join(list)
+ITEM_TEMPLATE = '{}="{}"'
 _MATCH = object()  # a match object (anything that is not None)
+
+
+def fstring_fn(template, n):
+    """the text of an f-string with the literal parts of `template` and n formatted values"""
+    return z3.Function("fstring[" + template + "]", *([Obj] * n + [Obj]))
 
 
 def _attr_key_search_stub(*a):
@@ -263,12 +272,12 @@ class _AbstractMapping:
 class XmlAttr(VC):
     """For a mapping with any number of items (key_i, value_i), i < N, with
          emit(i) = value_i is neither None nor Undefined,
-       the result is  sp + " ".join(escape(key_i) + '="' + escape(value_i) + '"' for emitted i in order)
+       the result is  sp + " ".join(f'{escape(key_i)}="{escape(value_i)}"' for emitted i, in order)
        (sp = " " iff autospace and the joined text is non-empty), Markup iff autoescape;
        ValueError iff some emitted key matches _attr_key_re (C24.xmlattr.key_re states what that regex covers)."""
     prop = "C24"
     target = "jinja2.filters:do_xmlattr"
-    timeout_quick = 30000
+    timeout_quick = 20000
 
     def __init__(self):
         super().__init__("C24", "C24.xmlattr")
@@ -280,9 +289,10 @@ class XmlAttr(VC):
         return z3.Not(z3.Or(v == host_const(None), isinst_fn(F.Undefined)(v)))
 
     def fmt(self, i):
-        return z3.Concat(f_esc(z3.Select(self.K, i)), z3.StringVal('="'), f_esc(z3.Select(self.V, i)), z3.StringVal('"'))
+        return fstring_fn(ITEM_TEMPLATE, 2)(f_str(f_esc(z3.Select(self.K, i))), f_str(f_esc(z3.Select(self.V, i))))
 
     def configure(self, I):
+        import types
         c = self
 
         def items(I_, st, args, kwargs, node):
@@ -307,47 +317,82 @@ class XmlAttr(VC):
         I.specs[("fn", id(_attr_key_search_stub))] = search
 
         def esc(I_, st, args, kwargs, node):
-            return [(st, Sym(f_esc(to_term(args[0], "obj")), "str", {"markup", "escaped"}))]
+            return [(st, Sym(f_esc(to_term(args[0], "obj")), "obj", {"text", "markup", "escaped"}))]
 
         I.specs[("fn", id(F.escape))] = esc
         I.specs[("fn", id(markupsafe.Markup))] = markup_ctor_spec
+        I.specs["str_obj"] = lambda I_, st, args, kwargs, node: [(st, Sym(f_str(args[0].t), "obj", {"text"}))]
+
+        def joined_str(self_, e, st, fr):
+            """f-string: template (literal parts) applied to str() of the values"""
+            exprs, template = [], ""
+            for v in e.values:
+                if isinstance(v, ast.Constant):
+                    template += v.value.replace("{", "{{").replace("}", "}}")
+                else:
+                    if v.format_spec is not None:
+                        raise Unsupported("format spec in f-string", e)
+                    template += "{}" if v.conversion == -1 else "{!" + chr(v.conversion) + "}"
+                    exprs.append(v.value)
+
+            def fin(s1, vals):
+                results = [(s1, [])]
+                for x in vals:
+                    nxt = []
+                    for s2, acc in results:
+                        for s3, sv in self_.call(s2, str, [x], {}, e):
+                            nxt.append((s3, sv if isinstance(sv, Raised) else acc + [sv]))
+                    results = nxt
+                out = []
+                for s2, acc in results:
+                    if isinstance(acc, Raised):
+                        out.append((s2, acc))
+                    else:
+                        out.append((s2, Sym(fstring_fn(template, len(acc))(*[to_term(x, "obj") for x in acc]), "obj", {"text"})))
+                return out
+
+            from pyvc.interp import seq
+            return seq(self_.ev_list(exprs, st, fr), fin)
+
+        I.ev_JoinedStr = types.MethodType(joined_str, I)
 
         def join(I_, st, args, kwargs, node):
             recv, lst = args
             if recv != " ":
                 raise Unsupported("str.join: only the one-space separator is specified here", node)
             arr, n = c.list_terms(st, lst)
-            r = Sym(f_join_sp(arr, n), "str")
+            r = Sym(f_join_sp(arr, n), "obj", {"text"})
             A.call_event(st, "str.join", args, kwargs, r, node)
             return [(st, r)]
 
         I.specs["str.join"] = join
+        I.specs[("binop", ast.Add)] = lambda I_, st, args, kwargs, node: [(st, Sym(f_cat(to_term(args[0], "obj"), to_term(args[1], "obj")), "obj", {"text"}))]
 
         def inv(ctx):
             arr, n = c.list_terms(ctx.st, ctx.local("items"))
             k = ctx.k
             i = z3.Int(fresh_name("i"))
             return [
-                n == c.cnt(k),
-                z3.ForAll([i], z3.Implies(z3.And(0 <= i, i < k, c.emit(i)), z3.Select(arr, c.cnt(i)) == c.fmt(i))),
-                z3.ForAll([i], z3.Implies(z3.And(0 <= i, i < k, c.emit(i)), z3.Not(f_bad_key(z3.Select(c.K, i))))),
+                c.guard(n == c.cnt(k)),
+                c.guard(z3.ForAll([i], z3.Implies(z3.And(0 <= i, i < k, c.emit(i)), z3.Select(arr, c.cnt(i)) == c.fmt(i)))),
+                c.guard(z3.ForAll([i], z3.Implies(z3.And(0 <= i, i < k, c.emit(i)), z3.Not(f_bad_key(z3.Select(c.K, i)))))),
             ]
 
         def heap(st, local):
             h = st.get(local["items"])
             h.items = None
-            h.arr = z3.Const(fresh_name("items_arr"), z3.ArraySort(I_, Str))
+            h.arr = z3.Const(fresh_name("items_arr"), z3.ArraySort(I_, Obj))
             h.n = z3.Int(fresh_name("items_n"))
-            h.k = "str"
+            h.k = "obj"
 
         I.loops[("do_xmlattr", 0)] = LoopSpec(inv, havoc={}, heap=heap, name="items_loop")
 
     def list_terms(self, st, ref):
         h = st.get(ref)
         if h.concrete:
-            arr = z3.K(I_, z3.StringVal(""))
+            arr = z3.K(I_, z3.Const("no_item", Obj))
             for j, x in enumerate(h.items):
-                arr = z3.Store(arr, j, to_term(x, "str"))
+                arr = z3.Store(arr, j, to_term(x, "obj"))
             return arr, z3.IntVal(len(h.items))
         return h.arr, h.n
 
@@ -359,14 +404,22 @@ class XmlAttr(VC):
         i, j = z3.Ints("ci cj")
         step = lambda t: z3.If(self.emit(t), 1, 0)  # noqa: E731
         st.assume(self.N >= 0, self.cnt(0) == 0)
+        # Every quantified fact is guarded by the ghost switch G (a free Boolean): obligations are proved in the form
+        # pc => (G => goal), which for G = true is the intended statement, while the satisfiability queries of the path
+        # exploration can take G = false and stay quantifier-free (z3 does not honour its timeout on satisfiable
+        # quantified queries here).
+        self.G = z3.Bool("ghost_quantified_facts")
         # definition of the ghost counter, and its monotonicity (a consequence by induction on j - i)
-        st.assume(z3.ForAll([i], z3.Implies(i >= 0, self.cnt(i + 1) == self.cnt(i) + step(i)), patterns=[self.cnt(i + 1)]))
-        st.assume(z3.ForAll([i, j], z3.Implies(z3.And(0 <= i, i < j), self.cnt(i) + step(i) <= self.cnt(j)),
-                            patterns=[z3.MultiPattern(self.cnt(i), self.cnt(j))]))
+        st.assume(self.guard(z3.ForAll([i], z3.Implies(i >= 0, self.cnt(i + 1) == self.cnt(i) + step(i)), patterns=[self.cnt(i + 1)])))
+        st.assume(self.guard(z3.ForAll([i, j], z3.Implies(z3.And(0 <= i, i < j), self.cnt(i) + step(i) <= self.cnt(j)),
+                                       patterns=[z3.MultiPattern(self.cnt(i), self.cnt(j))])))
         self.d = st.alloc(HObj(_AbstractMapping), initial=True)
         self.autospace, self.autoescape = sym("autospace", "bool"), sym("autoescape", "bool")
         ctx = A.obj(st, EvalContext, "eval_ctx", fields={"autoescape": self.autoescape})
         return [ctx, self.d, self.autospace], {}
+
+    def guard(self, f):
+        return z3.Implies(self.G, f)
 
     def bad_emitted(self):
         i = z3.Int(fresh_name("bi"))
@@ -376,8 +429,8 @@ class XmlAttr(VC):
         if out.raised:
             if out.value.cls is not ValueError:
                 return False
-            return self.bad_emitted()
-        return z3.Not(self.bad_emitted())
+            return self.guard(self.bad_emitted())
+        return self.guard(z3.Not(self.bad_emitted()))
 
     def p_items(self, pre, out):
         if out.raised:
@@ -387,8 +440,8 @@ class XmlAttr(VC):
             return False
         arr, n = self.list_terms(out.st, ev[0].args[1])
         i = z3.Int(fresh_name("i"))
-        return z3.And(n == self.cnt(self.N),
-                      z3.ForAll([i], z3.Implies(z3.And(0 <= i, i < self.N, self.emit(i)), z3.Select(arr, self.cnt(i)) == self.fmt(i))))
+        return self.guard(z3.And(n == self.cnt(self.N),
+                                 z3.ForAll([i], z3.Implies(z3.And(0 <= i, i < self.N, self.emit(i)), z3.Select(arr, self.cnt(i)) == self.fmt(i)))))
 
     def p_result(self, pre, out):
         if out.raised:
@@ -397,8 +450,10 @@ class XmlAttr(VC):
         if len(ev) != 1:
             return False
         J = ev[0].result.t
-        r = to_term(out.value, "str")
-        return r == z3.If(z3.And(self.autospace.t, z3.Length(J) > 0), z3.Concat(z3.StringVal(" "), J), J)
+        r = to_term(out.value, "obj")
+        from pyvc.interp import InterpBase
+        nonempty = InterpBase.truthy_fn(J)
+        return r == z3.If(z3.And(self.autospace.t, nonempty), f_cat(to_term(" ", "obj"), J), J)
 
     def p_markup(self, pre, out):
         if out.raised:
@@ -429,6 +484,69 @@ class XmlAttr(VC):
             if v:
                 return v, d
         return False, d
+
+
+class XmlAttrSmall(XmlAttr):
+    """The same contract for concrete mappings of n = 1, 2 items with symbolic keys and values (loop unrolled,
+    quantifier-free): gives concrete counterexamples where the unbounded contract can only time out."""
+
+    def __init__(self, n):
+        self.n_items = n
+        VC.__init__(self, "C24", f"C24.xmlattr.items{n}")
+
+    def setup(self, I, st):
+        n = self.n_items
+        self.keys = [sym(f"key{i}", "obj") for i in range(n)]
+        self.vals = [sym(f"value{i}", "obj") for i in range(n)]
+        self.K = z3.K(I_, z3.Const("no_key", Obj))
+        self.V = z3.K(I_, z3.Const("no_value", Obj))
+        for i in range(n):
+            self.K = z3.Store(self.K, i, self.keys[i].t)
+            self.V = z3.Store(self.V, i, self.vals[i].t)
+        self.N = z3.IntVal(n)
+        self.G = z3.BoolVal(True)
+        st.assume(z3.Distinct(*[k.t for k in self.keys]) if n > 1 else z3.BoolVal(True))
+        self.d = st.alloc(HDict(items={k: v for k, v in zip(self.keys, self.vals)}), initial=True)
+        self.autospace, self.autoescape = sym("autospace", "bool"), sym("autoescape", "bool")
+        ctx = A.obj(st, EvalContext, "eval_ctx", fields={"autoescape": self.autoescape})
+        return [ctx, self.d, self.autospace], {}
+
+    def bad_emitted(self):
+        return z3.Or(*[z3.And(self.emit(z3.IntVal(i)), f_bad_key(self.keys[i].t)) for i in range(self.n_items)])
+
+    def p_items(self, pre, out):
+        if out.raised:
+            return None
+        ev = A.calls(out, "str.join")
+        if not ev:
+            # " ".join([]) is evaluated by the engine itself: nothing was emitted
+            return z3.And(*[z3.Not(self.emit(z3.IntVal(i))) for i in range(self.n_items)])
+        if len(ev) != 1:
+            return False
+        arr, n = self.list_terms(out.st, ev[0].args[1])
+        cases = []
+        for pattern in itertools.product((False, True), repeat=self.n_items):
+            cond = z3.And(*[self.emit(z3.IntVal(i)) == z3.BoolVal(b) for i, b in enumerate(pattern)])
+            want = [self.fmt(z3.IntVal(i)) for i, b in enumerate(pattern) if b]
+            cases.append(z3.Implies(cond, z3.And(n == len(want), *[z3.Select(arr, j) == w for j, w in enumerate(want)])))
+        return z3.And(*cases)
+
+    def p_result(self, pre, out):
+        if not out.raised and not A.calls(out, "str.join"):
+            return to_term(out.value, "obj") == to_term("", "obj")
+        return XmlAttr.p_result(self, pre, out)
+
+    posts = [("errors", XmlAttr.p_errors), ("items", p_items), ("result", p_result), ("markup_iff_autoescape", XmlAttr.p_markup)]
+
+    def concretize(self, model, pre, out):
+        items = []
+        for i in range(self.n_items):
+            emit = model_value(model, self.emit(z3.IntVal(i))) is True
+            bad = model_value(model, f_bad_key(self.keys[i].t)) is True
+            v = model.eval(self.vals[i].t, model_completion=True)
+            is_none = str(v) == str(model.eval(host_const(None), model_completion=True))
+            items.append([f"k {i}" if bad else f"k{i}", f"v<{i}>\"" if emit else (None if is_none else "UNDEFINED")])
+        return {"items": items, "autospace": bool(model_value(model, self.autospace.t)), "autoescape": bool(model_value(model, self.autoescape.t))}
 
 
 ATTR_TERMINATORS = " \t\n\r\x0c/>="  # characters that end an attribute name (HTML spec 13.2.5.33) plus the documented ones
@@ -655,7 +773,6 @@ def escape_table(task, tier, seed):
         ok = T.get(name) is fn
         rs.append(Res(f"C24.table.filter[{name}]", "discharged" if ok else "refuted", "table", 0,
                       "" if ok else f"FILTERS[{name!r}] is {T.get(name)!r}", "table", {"name": name}))
-    ok = getattr(F.do_join, "jinja_async_variant", None) is True or F.do_join is F.sync_do_join or getattr(F.do_join, "__wrapped__", None) is not None
     return rs
 
 
@@ -1225,7 +1342,7 @@ BOUNDED = [
     for i in range(4)
 ]
 
-TASKS = [XmlAttr(), FnTask("C24", "C24.xmlattr.key_re", xmlattr_key_re, "regex", check_xmlattr), ForceEscape(),
+TASKS = [XmlAttr(), XmlAttrSmall(1), XmlAttrSmall(2), FnTask("C24", "C24.xmlattr.key_re", xmlattr_key_re, "regex", check_xmlattr), ForceEscape(),
          FnTask("C24", "C24.table", escape_table, "table", replay_table),
          TojsonChars(False), TojsonChars(True), Tojson(False), Tojson(True),
          *[MarkupArgs(f) for f in MARKUP_FILTERS], *BOUNDED]
